@@ -548,6 +548,21 @@ ModelEvent(h, st) ==
           IN Ev(st, h, h, "ok", [wrote |-> "ok", facts |-> f,
                                  valid |-> WellFormedFacts(f) /\ ~\E k \in 1..Len(a.muts) : Pre(a.muts[k], "hdr:"),
                                  loaded |-> "ok", declared |-> decl, got |-> decl])
+     [] st.call = "mapfile" ->
+          IF MapFileOk(a.lines, a.opts) /\ HeaderFirst(a.lines, a.opts)
+          THEN Ev(st, h, h, "ok", [parsed |-> LET r == RefMap(a.lines, a.opts) IN
+                                              [k \in 1..Len(r) |-> <<r[k][1], SetToSeq(r[k][2])>>]])
+          ELSE Ev(st, h, h, "error", [parsed |-> <<>>])
+     [] st.call = "cli_add_metadata" ->
+          IF MapFileOk(a.lines, a.opts) /\ HeaderFirst(a.lines, a.opts) /\ InDomainC01(pre)
+             /\ (a.json \/ SeqSet(a.opts.sc) \subseteq {"taxonomy"})
+             /\ (a.json \/ HomogeneousKinds(a.lines, a.opts))
+             /\ (a.json \/ SeqSet(Ids(pre, a.axis)) \subseteq {RefMap(a.lines, a.opts)[k][1] : k \in 1..Len(RefMap(a.lines, a.opts))})
+          THEN LET r == RefMap(a.lines, a.opts)
+                   md == [k \in 1..Len(r) |-> <<r[k][1], SetToSeq(r[k][2])>>]
+               IN Ev(st, h, Put(h, st.res, Fresh(IF a.json THEN JNorm(AddMd(pre, md, a.axis)) ELSE HNorm(AddMd(pre, md, a.axis)))),
+                "ok", [wrote |-> "ok"])
+          ELSE Ev(st, h, h, "error", [wrote |-> "refused"])
      [] OTHER -> Ev(st, h, h, "error", [nothing |-> TRUE])
 
 (************************** argument alphabets ***************************)
@@ -565,6 +580,24 @@ UcRecordSets ==
    <<<<"S", "o1", "s1">>, <<"L", "o2", "s2">>, <<"H", "o1", "s1">>, <<"S", "o2", "s2">>, <<"H", "o2", "s1">>, <<"H", "o2", "s1">>>>,
    <<<<"L", "o2", "s1">>, <<"S", "o1", "s2">>, <<"N", "o1", "s1">>>>,
    <<<<"H", "o2", "s2">>, <<"C", "o2", "s2">>, <<"H", "o2", "s2">>, <<"S", "o2", "s2">>>>}
+
+\* mapping-file lines over a small grammar; ids name IDs of the table (and one unknown ID)
+MapLine(kind, fields, deco) == [kind |-> kind, fields |-> fields, deco |-> deco]
+MapLines(i1, i2) ==
+  {MapLine("hash", <<"ID", "k1", "k2">>, "plain"), MapLine("hash", <<"ID", "k1", "k2", "k3">>, "spaced"),
+   MapLine("hash", <<"just a comment">>, "plain"), MapLine("blank", <<>>, "plain"),
+   MapLine("row", <<i1, "x", "7">>, "plain"), MapLine("row", <<i1, "p;q", "2.5">>, "quoted"),
+   MapLine("row", <<i2, "y">>, "plain"), MapLine("row", <<i2, "p; q ;r", "-3", "extra", "more">>, "spaced"),
+   MapLine("row", <<"zz", "p;q|r", "10">>, "plain"), MapLine("row", <<i2, "a|b;c", "x">>, "quoted")}
+MapOpts ==
+  LET O(h, i, f, s, p) == [header |-> h, ints |-> i, floats |-> f, sc |-> s, scpipe |-> p] IN
+  {O(<<>>, <<>>, <<>>, <<>>, <<>>), O(<<>>, <<"k2">>, <<>>, <<"k1">>, <<>>), O(<<>>, <<>>, <<"k2">>, <<>>, <<"k1">>),
+   O(<<"ID", "c1">>, <<>>, <<>>, <<"c1">>, <<>>), O(<<"ID", "c1", "c2">>, <<"c2">>, <<>>, <<>>, <<>>),
+   O(<<"ID", "k1", "k2", "k3">>, <<"k1", "k2">>, <<"k2">>, <<>>, <<>>),
+   O(<<"ID", "taxonomy", "n">>, <<"n">>, <<>>, <<"taxonomy">>, <<>>), O(<<"ID", "taxonomy">>, <<>>, <<>>, <<"taxonomy">>, <<>>)}
+\* all line sequences of length <= n
+RECURSIVE LineSeqs(_, _)
+LineSeqs(L, n) == IF n = 0 THEN {<<>>} ELSE LineSeqs(L, n - 1) \cup {Append(s, l) : s \in LineSeqs(L, n - 1), l \in L}
 
 SubSeqsOf(ids) == {SelectSeq(ids, LAMBDA x : x \in S) : S \in SUBSET SeqSet(ids)}
 PermsOf(ids) == {[i \in 1..Len(ids) |-> ids[p[i]]] : p \in Permutations(1..Len(ids))}
@@ -802,6 +835,28 @@ StepsFor(call, h, recv, res, full) ==
            {St(call, recv, recv, [fmt |-> fmt, muts |-> ms]) :
               ms \in {<<>>} \cup {<<m>> : m \in M} \cup (IF full THEN {<<m1, m2>> : m1 \in M, m2 \in M} ELSE {})}
            : fmt \in {"json", "hdf5"}}
+    [] call = "mapfile" ->
+         {St(call, recv, recv, [lines |-> ls, opts |-> o]) :
+            ls \in LineSeqs(MapLines("o1", "o2"), IF full THEN 4 ELSE 3), o \in MapOpts}
+    [] call = "cli_add_metadata" ->
+         UNION {
+           LET ids == Ids(t, ax)
+               i1 == IF ids = <<>> THEN "zz" ELSE ids[1]
+               i2 == IF Len(ids) < 2 THEN "zy" ELSE ids[Len(ids)]
+               \* the sc-pipe conversion builds lists of lists, which the HDF5 writer cannot store
+               opts == {o \in MapOpts : o.scpipe = <<>>}
+               \* header, [comment | blank], rows: the command is exercised on well-formed files mostly
+               L == MapLines(i1, i2)
+               hdrs == {l \in L : l.kind = "hash" /\ Len(l.fields) > 1}
+               rows == {l \in L : l.kind = "row"}
+               files == {<<hd, r1>> : hd \in hdrs, r1 \in rows}
+                        \cup {<<hd, r1, r2>> : hd \in hdrs, r1 \in rows, r2 \in rows}
+                        \cup (IF full THEN {<<hd, x, r1, r2, r3>> : hd \in hdrs, x \in L \ rows, r1 \in rows, r2 \in rows, r3 \in rows}
+                              ELSE {<<r1, hd, r2>> : hd \in hdrs, r1 \in rows, r2 \in rows})
+           IN {St(call, recv, res, [lines |-> ls, opts |-> o, axis |-> ax, other_header |-> oh, json |-> js]) :
+                 ls \in files, o \in opts,
+                 oh \in (IF full THEN {<<>>, <<"ID", "zz1">>} ELSE {<<"ID", "zz1">>}), js \in BOOLEAN}
+           : ax \in Axes}
     [] OTHER -> {}
 
 (****************************** the machine ******************************)
